@@ -653,6 +653,7 @@ fn race_script(seed: u64, draws: usize) -> (Vec<u32>, Vec<i64>) {
     let mut rng = Rng::new(seed);
     let mut prios = Vec::with_capacity(draws);
     let mut tr: Treap<TItem> = Treap::new();
+    let mut printed: u64 = 0; // printouts that differ from the specified layout
     for i in 0..draws {
         let c = rng.below(5) as i64;
         // node creation through the public safe constructors (both routes draw from the process-wide generator)
@@ -684,12 +685,34 @@ fn race_script(seed: u64, draws: usize) -> (Vec<u32>, Vec<i64>) {
             let (l, _r) = tr.split_at(100);
             tr = l;
         }
+        if i % 40 == 39 {
+            // printing the thread's own treap is an operation on it as well.  The text depends on the shape (hence on
+            // this thread's priorities), so it is compared with the layout spec/show/Show.tla defines (TreePrint:
+            // "<indent>- <item>", children 3 deeper, "- [None]" for a missing child), computed from the public fields
+            fn layout(n: &Option<Box<TreapNode<TItem>>>, ind: usize, out: &mut String) {
+                match n {
+                    None => out.push_str(&format!("{}- [None]\n", " ".repeat(ind))),
+                    Some(b) => {
+                        out.push_str(&format!("{}- {:?}\n", " ".repeat(ind), b.item));
+                        layout(&b.left, ind + 3, out);
+                        layout(&b.right, ind + 3, out);
+                    }
+                }
+            }
+            let text = format!("{:?}", rlib_treap::TreePrinter::new(&tr));
+            let mut want = String::new();
+            layout(&tr.root, 0, &mut want);
+            if text != want {
+                printed += 1;
+            }
+        }
     }
     let obs: Vec<i64> = tr.collect().iter().map(|i| i.c).collect();
     let agg = tr.root().map(|i| (i.h, i.len)).unwrap_or((0, 0));
     let mut out = obs;
     out.push(agg.0);
     out.push(agg.1);
+    out.push(printed as i64);
     (prios, out)
 }
 
@@ -789,6 +812,36 @@ pub fn record_starts(rounds: usize, threads: usize, per: usize, out: &str) {
             }
         }
     }
+    // staggered lifetimes: A and B draw and stay alive, A ends, then C draws while B is still alive; the streams of
+    // B and C (both alive) are reported in one group together with A's
+    for _ in 0..(rounds / 4).max(8) {
+        let spawn_held = |per: usize| {
+            let (tx, rx) = std::sync::mpsc::channel::<Vec<u32>>();
+            let (stop_tx, stop_rx) = std::sync::mpsc::channel::<()>();
+            let h = std::thread::spawn(move || {
+                let prios: Vec<u32> = (0..per).map(|_| TreapNode::new(TItem::new(1)).priority).collect();
+                let _ = tx.send(prios);
+                let _ = stop_rx.recv();
+            });
+            (rx.recv(), stop_tx, h)
+        };
+        let (ra, stop_a, ha) = spawn_held(per);
+        let (rb, stop_b, hb) = spawn_held(per);
+        let _ = stop_a.send(());
+        let ea = join_msg(ha);
+        let (rc, stop_c, hc) = spawn_held(per);
+        let _ = stop_b.send(());
+        let _ = stop_c.send(());
+        let eb = join_msg(hb);
+        let ec = join_msg(hc);
+        for (r, e) in [(ra, ea), (rb, eb), (rc, ec)] {
+            match (r, e) {
+                (Ok(prios), _) => streams.push(json!(prios.iter().map(|&p| hi_lo(p)).collect::<Vec<_>>())),
+                (Err(_), Err(m)) => panics.push(m),
+                (Err(_), Ok(())) => panics.push("thread ended without a result".into()),
+            }
+        }
+    }
     t.ev(json!({"ev": "start_streams", "streams": streams, "panics": panics}));
     let ev = t.finish();
     println!("{}", json!({"events": ev, "threads": rounds * threads, "draws_per_thread": per}));
@@ -799,11 +852,41 @@ pub fn record_solo_streams(k: usize, per: usize, out: &str) {
     let mut t = TraceWriter::create(out);
     let mut streams: Vec<Value> = vec![];
     let mut panics: Vec<String> = vec![];
+    // one thread after the other draws, but every thread stays alive (parked) until all have drawn: nothing runs
+    // concurrently, and a design that numbers its generators by the threads currently alive still hands out one
+    // stream per thread
+    let release = std::sync::Arc::new((std::sync::Mutex::new(false), std::sync::Condvar::new()));
+    let mut parked = vec![];
     for _ in 0..k {
-        match join_msg(std::thread::spawn(move || (0..per).map(|_| TreapNode::new(TItem::new(1)).priority).collect::<Vec<u32>>())) {
-            Ok(prios) => streams.push(json!(prios.iter().map(|&p| hi_lo(p)).collect::<Vec<_>>())),
-            Err(m) => panics.push(m),
+        let (tx, rx) = std::sync::mpsc::channel::<Vec<u32>>();
+        let rel = release.clone();
+        let h = std::thread::Builder::new().stack_size(128 * 1024).spawn(move || {
+            let prios: Vec<u32> = (0..per).map(|_| TreapNode::new(TItem::new(1)).priority).collect();
+            let _ = tx.send(prios);
+            let (m, cv) = &*rel;
+            let mut go = m.lock().unwrap();
+            while !*go {
+                go = cv.wait(go).unwrap();
+            }
+        }).expect("spawn");
+        match rx.recv() {
+            Ok(prios) => {
+                streams.push(json!(prios.iter().map(|&p| hi_lo(p)).collect::<Vec<_>>()));
+                parked.push(h);
+            }
+            Err(_) => {
+                // the thread died before reporting (node creation panicked)
+                panics.push(join_msg(h).err().unwrap_or_else(|| "thread ended without a result".into()));
+            }
         }
+    }
+    {
+        let (m, cv) = &*release;
+        *m.lock().unwrap() = true;
+        cv.notify_all();
+    }
+    for h in parked {
+        let _ = h.join();
     }
     t.ev(json!({"ev": "solo_streams", "streams": streams, "panics": panics}));
     let ev = t.finish();
